@@ -15,7 +15,9 @@ NOTES = ['the 512 binary neighbourhoods are enumerated completely, in both forms
          'the model side is the memoize=False engine for all three memoize modes: the result must not depend on the mode',
          'sequence cases: 2-4 evolve2d calls in one process with the same cpl.game_of_life_rule object, mixing '
          "neighbourhood='von Neumann' / 'Moore' and the memoize modes; every Moore call is compared (model and np.roll "
-         'oracle), the von Neumann calls are modelled (masked sum) but not compared: the property does not speak about them']
+         'oracle), the von Neumann calls are modelled (masked sum) but not compared: the property does not speak about them',
+         'sequence/other_radius cases come first in the process: evolve2d with r = 2 or r = 0 and an affine rule on a shape, '
+         'then Life (r = 1) on the same shape; only the Life calls are compared']
 ASSUMPTIONS = ['grids hold 0/1 integers (the property is stated for binary neighbourhoods)',
                'r = 1, Moore neighbourhood (the default evolve2d arguments used with game_of_life_rule)',
                'a MaskedArray neighbourhood is exercised with an all-False mask only']
@@ -48,6 +50,10 @@ def _rand_grid(rng, R, C):
 
 def generate(rng, tier):
     thorough = tier == 'thorough'
+    # 0. FIRST in the process (before any other evolve2d call has seen these shapes): a call with r = 2 or r = 0
+    #    on a shape, then Life on the same shape
+    for c in _other_radius(rng, 300 if thorough else 100):
+        yield c
     # 1. the complete finite domain, both forms
     for v in range(512):
         bits = [(v >> (8 - k)) & 1 for k in range(9)]
@@ -113,6 +119,27 @@ def _grid04(rng, R, C):
     return [[1 if rng.random() < 0.4 else 0 for _ in range(C)] for _ in range(R)]
 
 
+def _other_radius(rng, n):
+    """The first call is evolve2d on the SAME shape with r != 1 and a pure affine rule (any memoize mode, either
+    neighbourhood type); then 1-3 Life calls (r = 1, Moore, all modes).  State kept between calls per lattice
+    shape must not leak into Life."""
+    shapes = [(R, C) for R in range(5, 10) for C in range(5, 10)]
+    rng.shuffle(shapes)
+    for i in range(n):
+        R, C = shapes[i % len(shapes)]
+        r0 = 2 if (i // len(shapes)) % 2 == 0 or i % 3 else 0
+        w = (2 * r0 + 1) ** 2
+        first = {'nb': rng.choice('MV'), 'r': r0, 'hist': [_grid04(rng, R, C)], 'T': rng.randint(2, 3),
+                 'memo': rng.randrange(3), 'rule': {'fam': 'aff', 'ws': [1] * w, 'b': 1, 'm': 2}}
+        g = _grid04(rng, R, C)
+        calls = [first]
+        for k in range(rng.randint(1, 3)):
+            calls.append({'nb': 'M', 'hist': [g if k == 0 else _grid04(rng, R, C)], 'T': rng.randint(2, 4),
+                          'memo': (i + k) % 3})
+        yield {'kind': 'sequence/other_radius/r%d-%s' % (r0, 'square' if R == C else 'rect'), 'op': 'sequence',
+               'calls': calls}
+
+
 def _sequences(rng, n):
     """2-4 evolve2d calls back to back with the same rule object; mixed neighbourhood types / memoize modes"""
     for i in range(n):
@@ -174,6 +201,12 @@ def run_impl(c):
         for call in c['calls']:
             h = np.array(call['hist'])
             nb = 'Moore' if call['nb'] == 'M' else 'von Neumann'
+            if 'rule' in call:               # a call with another rule / radius: only there to have happened before
+                from harness import twins
+                f = twins.make_rule(call['rule'], dim=2)
+                out.append(list(call_impl(lambda: cpl.evolve2d(h, timesteps=call['T'], apply_rule=f, r=call['r'],
+                                                               neighbourhood=nb, memoize=MEMO[call['memo']]).tolist())))
+                continue
             out.append(list(call_impl(lambda: cpl.evolve2d(h, timesteps=call['T'], apply_rule=rule, neighbourhood=nb,
                                                            memoize=MEMO[call['memo']]).tolist())))
         return out
@@ -194,7 +227,7 @@ def to_coq(c, obs):
         return '(CSequence [%s])' % '; '.join(
             'SeqCall %s %s %s %s %s' % ('Moore' if call['nb'] == 'M' else 'VonNeumann', chist(call['hist']),
                                         cnat(call['T']), cnat(call['memo']), cres(o, chist))
-            for call, o in zip(c['calls'], obs))
+            for call, o in zip(c['calls'], obs) if 'rule' not in call)
     if op == 'evolve':
         return '(CEvolve %s %s %s %s)' % (chist(c['hist']), cnat(c['T']), cnat(c['memo']), cres(obs, chist))
     pat = {'glider': 'PGlider', 'block': 'PBlock', 'blinker': 'PBlinker'}[c['pat']]
@@ -208,7 +241,7 @@ def nontrivial(c, obs):
     if op == 'roll':
         return c['da'] != 0 or c['db'] != 0
     if op == 'sequence':
-        return all(o[0] == 'ok' for o in obs) and any(call['nb'] == 'V' for call in c['calls'])
+        return all(o[0] == 'ok' for o in obs) and any(call['nb'] == 'V' or 'rule' in call for call in c['calls'])
     if obs[0] != 'ok':
         return False
     if op == 'rule':
@@ -231,7 +264,7 @@ def oracle(c, obs):
         return None
     if op == 'sequence':
         for k, (call, o) in enumerate(zip(c['calls'], obs)):
-            if call['nb'] != 'M':
+            if call['nb'] != 'M' or 'rule' in call:
                 continue
             if o[0] != 'ok':
                 return 'call %d of the sequence (Moore) raised %s' % (k, o[1])
